@@ -82,6 +82,16 @@ PauseRules ==
             (paused' = <<>> /\ ticks' = 0 /\ ov'[cur'] = StartWith(vals))      \* blend afresh, discard
   ]_avars
 
+\* A pause record exists only while the current state has no timeline, and it names an animated state
+\* (the as-found code violated this: the record survived into animated states)
+PauseShape == paused # <<>> => (~HasTl(cur) /\ HasTl(paused[1]) /\ paused[1] # cur)
+\* C06 in the model: values are a function of the total time in the state - delivering the same time in two
+\* frames (a then b) or in one (a + b) gives the same values, for every split
+PartitionFree(DT) ==
+  \A a \in DT, b \in DT :
+    Recompute(cur, ov[cur], F32Round(ticks + a + b), Recompute(cur, ov[cur], F32Round(ticks + a), vals))
+      = Recompute(cur, ov[cur], F32Round(ticks + a + b), vals)
+
 \* C07: completion
 EndedStable == [][(IsEnded /\ cur' = cur) => (IsEnded' /\ vals' = vals)]_avars
 \* C08 in the animator: properties the current timeline does not animate keep their value
